@@ -17,7 +17,12 @@ def run(ctx):
                 "against 65 + the schema's bound; (3) schema isolation, a fixed sweep: a tight schema (every constraint class x position) in force "
                 "on one connection while looser constraint objects of every class are built before / after / in mid-message, a loose twin schema "
                 "is receiving on another connection, or the same schema object serves two connections: a body the tight schema refuses is "
-                "never buffered; non-trivial = distinct run in which at least one oversize body was announced")
+                "never buffered; (4) over-long token headers (digits only, no type byte) paced in packets of 1..200 bytes at every receive state in "
+                "which a header can start: a live connection never holds more than 65 bytes and is ended once 65 header bytes have arrived "
+                "(fixed sweep, policy unslicers + real constraints, a subset also against the model chunk by chunk); (5) RemoteCopy attribute "
+                "slots, a fixed sweep: every constraint class x plain / Optional / ChoiceOf / Optional(ChoiceOf) as the attribute's constraint "
+                "in a stateSchema x position: an oversize body for that attribute is never buffered; "
+                "non-trivial = distinct run in which at least one oversize body (or an endless header) was announced")
     ctx.assumptions = ["the schema bound B of a real constraint tree is computed by the harness from the constraint objects' public "
                        "attributes (maxLength, maxBytes); index tokens are bounded by RootUnslicer.maxIndexLength",
                        "the tokenizer model is tied to banana.py by the C07 correspondence; here the per-chunk buffer/skip values are compared",
@@ -35,6 +40,7 @@ def run(ctx):
     model_cases = []
     n = ctx.n(55, 3000)
     with I.E_quiet():
+        paced_long_headers(ctx, I, model_cases)
         for i in range(n):
             limit = r.choice([0, 1, 3, 10, 100])
             where = r.choice(["root", "S", "nested", "index", "discarding", "error"])
@@ -99,6 +105,103 @@ def run(ctx):
         c07.correspond(ctx, model_cases)
     if not ok and len(ctx.failures) == before:
         ctx.fail("proof-broken", "theorem closure props/C11.vo no longer builds: " + log[-2500:], replay=dict(log=log[-6000:]), has_input=False)
+
+
+# ---------------------------------------------------------------------------------------------
+def paced_long_headers(ctx, I, model_cases):
+    """`a header longer than 64 bytes ends the connection` / `decides after reading at most 65 bytes`, for EVERY pacing: a token header
+    (base-128 digits, all below 0x80) that does not end, delivered in packets of 1 .. 200 bytes, at every receive state in which a
+    header can start (fresh connection, inside a sequence after a complete token, index position of an OPEN, while a sequence is
+    being discarded, right after a refused body has been skipped), the bytes before it in a packet of their own or in the first
+    header packet, optionally ended by a type byte after 70 digits.  Fixed sweep (no random choice).  While the connection is alive
+    it never holds more than 65 bytes, and once 65 header bytes have been delivered it has been dropped.  A subset goes to the
+    per-chunk correspondence with the Coq tokenizer model as well."""
+    from foolscap.constraint import IConstraint, ByteStringConstraint
+    from foolscap.schema import ListOf
+    positions = [("fresh", b""),
+                 ("in-list-after-token", tok(OPEN, 0) + S(b"L") + enc_int(5)),
+                 ("index", tok(OPEN, 0)),
+                 ("discarding", tok(OPEN, 0) + S(b"Z")),
+                 ("after-skipped-body", tok(OPEN, 0) + S(b"S3") + enc_int(1) + claim(STRING, 10) + b"0123456789")]
+    ND = 200
+
+    def judge(kind, desc, prefixlen, sizes, bufs, deads, rp):
+        """sizes[i] = bytes in packet i, bufs[i] / deads[i] = len(buffer) / abandoned after packet i"""
+        fed = 0
+        for i, n_ in enumerate(sizes[:len(bufs)]):
+            fed += n_
+            digits = max(0, fed - prefixlen)
+            if not deads[i] and bufs[i] > 65:
+                ctx.fail("oracle/overlong-header/held-beyond-65-bytes", "%s: %d bytes of an unfinished token header (no type byte yet) are held by a live "
+                         "connection after packet %d (%d header bytes delivered so far): the receiver must decide within 65 bytes" % (desc, bufs[i], i, digits),
+                         replay=dict(rp, packet_index=i, held=bufs[i], header_bytes_delivered=digits))
+                return
+            if digits >= 65 and not deads[i]:
+                ctx.fail("oracle/overlong-header/connection-not-ended", "%s: %d header bytes without a type byte have been delivered (packet %d) and the "
+                         "connection is still alive, holding %d bytes: a header longer than 64 bytes ends the connection" % (desc, digits, i, bufs[i]),
+                         replay=dict(rp, packet_index=i, held=bufs[i], header_bytes_delivered=digits))
+                return
+
+    for pname, prefix in positions:
+        for digit in (0x01, 0x00, 0x7f):
+            for packet in (1, 5, 13, 64, 65, 200):
+                for joined in (False, True):
+                    for ended in (False, True):
+                        if ended and (digit != 0x01 or packet in (65, 200)):
+                            continue
+                        if joined and not prefix:
+                            continue
+                        nd = 70 if ended else ND
+                        stream = prefix + bytes([digit]) * nd + (bytes([INT]) if ended else b"")
+                        rest = len(stream) - len(prefix)
+                        cs = [packet] * (rest // packet) + ([rest % packet] if rest % packet else [])
+                        if joined:
+                            cs[0] += len(prefix)
+                        elif prefix:
+                            cs = [len(prefix)] + cs
+                        ev, snaps, esc = I.run_policy(stream, cs, "any")
+                        ctx.case(["paced-long-header", pname, digit, packet, joined, ended], nontrivial=True)
+                        ctx.hist("where", "longheader")
+                        ctx.hist("paced_long_header", pname)
+                        desc = "policy unslicers, header starts %s (%d bytes before it, %s), digit 0x%02x, packets of %d" % (
+                            pname, len(prefix), "in the first header packet" if joined else "in a packet of their own", digit, packet)
+                        rp = dict(stream=list(stream), chunks=cs, rootmode="any")
+                        if esc:
+                            ctx.fail("oracle/exception-escaped", "exception escaped dataReceived: %s" % esc, replay=rp)
+                            continue
+                        judge("policy", desc, len(prefix), cs, [s_["buf"] for s_ in snaps], [s_["dead"] for s_ in snaps], rp)
+                        if digit == 0x01 and packet in (5, 64, 65) and len(cs) <= 300:
+                            model_cases.append((stream, cs, "any", ev, snaps))
+    # the same under REAL constraints (the schema in force is irrelevant to the header cap)
+    for cname, mk, prefix in (("bytes<=10 as root constraint", lambda: ByteStringConstraint(maxLength=10), b""),
+                              ("ListOf(bytes<=10) after one item", lambda: ListOf(ByteStringConstraint(maxLength=10), maxLength=3),
+                               tok(OPEN, 0) + S(b"list") + S(b"a")),
+                              ("no constraint", lambda: None, b"")):
+        for packet in (1, 13, 64, 65):
+            p = I.RealBanana()
+            c = mk()
+            if c is not None:
+                p.receiveStack[-1].constraint = IConstraint(c)
+            sizes, bufs, deads, esc = [], [], [], None
+            try:
+                if prefix:
+                    p.dataReceived(prefix)
+                    sizes.append(len(prefix)); bufs.append(len(p.buffer)); deads.append(bool(p.connectionAbandoned))
+                left = ND
+                while left > 0:
+                    k = min(packet, left)
+                    p.dataReceived(b"\x01" * k)
+                    left -= k
+                    sizes.append(k); bufs.append(len(p.buffer)); deads.append(bool(p.connectionAbandoned))
+            except Exception as e:
+                esc = "%s: %s" % (type(e).__name__, e)
+            ctx.case(["paced-long-header-real", cname, packet], nontrivial=True)
+            ctx.hist("paced_long_header", "real:" + cname.split(" ")[0])
+            rp = dict(constraint=cname, prefix=list(prefix), digit=1, packet=packet, header_bytes=ND)
+            if esc:
+                ctx.fail("oracle/exception-escaped", "exception escaped dataReceived (%s): %s" % (cname, esc), replay=rp)
+            else:
+                judge("real", "real Banana, %s, digit 0x01, packets of %d" % (cname, packet), len(prefix), sizes, bufs, deads, rp)
 
 
 # ---------------------------------------------------------------------------------------------
@@ -238,6 +341,7 @@ def real_constraints(ctx, I):
     member_counts(ctx, I)
     choice_open_sweep(ctx, I)
     choice_admits_copyable(ctx, I)
+    copyable_attribute_slots(ctx, I)
     slot_alternation(ctx, I)
     schema_isolation(ctx, I)
     pb_index_tokens(ctx)
@@ -762,6 +866,98 @@ def choice_admits_copyable(ctx, I):
                     if pos == "attr-name" and ty != STRING:
                         continue
                     drive("%s:%s:%s" % (sname, pos, cname), build_constraint(spec), prefix, ty, 2 ** 40, 4000, 3, 18)
+
+
+def copyable_attribute_slots(ctx, I):
+    """The schema in force for an attribute VALUE of a RemoteCopy is the constraint its stateSchema (AttributeDictConstraint) names for
+    that attribute, whether written plainly, as Optional(..), as ChoiceOf(..) or as Optional(ChoiceOf(..)): a sized token announcing
+    more than that constraint admits is refused on its header and nothing of its body is buffered.  Fixed sweep (no random choice):
+    every constraint class as the attribute's constraint x every wrapper x the Copyable as a list item / a dict value x the
+    attribute first / after a loosely constrained attribute x the sized token directly at the slot / inside the OPEN the constraint
+    admits x token kind x announced size.  The classes are registered for the duration of one trial only."""
+    from foolscap.constraint import IConstraint, ByteStringConstraint, IntegerConstraint, NumberConstraint, Optional, Any
+    from foolscap.schema import ListOf, TupleOf, DictOf, SetOf, UnicodeConstraint, BooleanConstraint, ChoiceOf
+    from foolscap.slicers.none import Nothing
+    from foolscap import copyable
+    NAME = "c11.N"
+    tight = lambda: ByteStringConstraint(maxLength=10)
+    # (name, maker, OPEN the constraint admits at the slot (bytes after the OPEN's index token) or None)
+    leaves = [("bytes<=10", tight, None),
+              ("int<=8B", lambda: IntegerConstraint(maxBytes=8), None),
+              ("int32", lambda: IntegerConstraint(maxBytes=-1), None),
+              ("number<=8B", lambda: NumberConstraint(maxBytes=8), None),
+              ("none", lambda: Nothing(), None),
+              ("unicode<=5", lambda: UnicodeConstraint(maxLength=5), S(b"unicode")),
+              ("bool", lambda: BooleanConstraint(), S(b"boolean")),
+              ("ListOf(bytes<=10)", lambda: ListOf(tight(), maxLength=3), S(b"list")),
+              ("SetOf(bytes<=10)", lambda: SetOf(tight(), maxLength=3), S(b"set")),
+              ("TupleOf(bytes<=10)", lambda: TupleOf(tight()), S(b"tuple")),
+              ("DictOf(bytes<=10,bytes<=10) value", lambda: DictOf(tight(), tight(), maxKeys=2), S(b"dict") + S(b"k"))]
+    wrappers = [("%s", lambda c: c),
+                ("Optional(%s)", lambda c: Optional(c, None)),
+                ("ChoiceOf(%s, None)", lambda c: ChoiceOf(c, None)),
+                ("ChoiceOf(%s, bool)", lambda c: ChoiceOf(c, bool)),
+                ("Optional(ChoiceOf(%s, None))", lambda c: Optional(ChoiceOf(c, None), None)),
+                ("Optional(ChoiceOf(%s, bool))", lambda c: Optional(ChoiceOf(c, bool), None))]
+    quick = ctx.tier == "quick"
+    sizes = (200, 2 ** 448 - 1) if quick else (11, 66, 200, 1001, 10 ** 6, 2 ** 64, 2 ** 448 - 1)
+    for lname, mk, inner in leaves:
+        for wfmt, wrap in wrappers:
+            cname = wfmt % lname
+            for site in ("list-item", "dict-value"):
+                for attrpos in ("first", "after-loose-attribute"):
+                    if quick and site == "dict-value" and attrpos != "first":
+                        continue
+                    for with_open in ((False, True) if inner else (False,)):
+                        for ty in (STRING, LONGINT, LONGNEG):
+                            for size in sizes:
+                                hw, esc, depth_ok = 0, None, True
+                                schema = copyable.AttributeDictConstraint(("pre", ByteStringConstraint(maxLength=300)), ("a", wrap(mk())),
+                                                                          ("post", Optional(ByteStringConstraint(maxLength=300), None)))
+                                depth = 0
+                                pre = b""
+                                # (a plain Banana root admits no Copyable at top level)
+                                pre += tok(OPEN, depth) + (S(b"list") if site == "list-item" else S(b"dict") + S(b"k"))
+                                depth += 1
+                                pre += tok(OPEN, depth) + S(b"copyable") + S(NAME.encode())
+                                depth += 1
+                                if attrpos != "first":
+                                    pre += S(b"pre") + S(b"p" * 250)
+                                pre += S(b"a")
+                                if with_open:
+                                    pre += tok(OPEN, depth) + inner
+                                try:
+                                    type("C11Note", (copyable.RemoteCopy,), dict(copytype=NAME, stateSchema=schema))
+                                    p = I.RealBanana()
+                                    p.dataReceived(pre)
+                                    depth_ok = len(p.receiveStack) >= depth + 1 + (1 if with_open else 0) and not p.discardCount and not p.connectionAbandoned
+                                    p.dataReceived(tok(ty, size))
+                                    hw = len(p.buffer)
+                                    left = min(size - 1, 3000)
+                                    while left > 0 and not p.connectionAbandoned:
+                                        n_ = min(1000, left)
+                                        p.dataReceived(b"y" * n_)
+                                        left -= n_
+                                        hw = max(hw, len(p.buffer))
+                                except Exception as e:
+                                    esc = "%s: %s" % (type(e).__name__, e)
+                                finally:
+                                    copyable.CopyableRegistry.pop(NAME, None)
+                                    copyable.debug_CopyableFactories.pop(NAME, None)
+                                    copyable.debug_RemoteCopyClasses.pop(NAME, None)
+                                ctx.case(["copyable-attribute", cname, site, attrpos, with_open, ty, size], nontrivial=depth_ok)
+                                ctx.hist("copyable_attribute", wfmt % "c")
+                                ctx.hist("copyable_attribute_reached_slot", depth_ok)
+                                rp = dict(attribute_constraint=cname, copyable=site, attribute=attrpos, inside_admitted_open=with_open, ty=ty, size=size,
+                                          packets=1000, highwater=hw, prefix=list(pre))
+                                if esc:
+                                    ctx.fail("oracle/exception-escaped", "exception escaped dataReceived (RemoteCopy attribute %s): %s" % (cname, esc), replay=rp)
+                                elif hw > 65:
+                                    ctx.fail("oracle/rejected-body-buffered/copyable-attribute",
+                                             "RemoteCopy with stateSchema AttributeDictConstraint(('pre', bytes<=300), ('a', %s), ('post', Optional(bytes<=300))), "
+                                             "%s, attribute 'a' %s%s: a %s token announcing %d bytes, which the constraint of attribute 'a' refuses (every limit "
+                                             "<= 40 bytes), was buffered (%d bytes held, 1000-byte packets)"
+                                             % (cname, site, attrpos, ", inside the OPEN that constraint admits" if with_open else "", hex(ty), size, hw), replay=rp)
 
 
 def member_counts(ctx, I):
